@@ -366,7 +366,13 @@ impl Driver {
 
     fn rand_policy(&self, rng: &mut Rng, p: &Profile, for_enc: bool) -> Value {
         let st = self.world.structure();
-        let nclauses = if rng.chance(1, 3) { 2 } else { 1 };
+        let nclauses = if for_enc && p.w_recaps >= 8 {
+            1 + rng.below(3)
+        } else if rng.chance(1, 3) {
+            2
+        } else {
+            1
+        };
         let mut clauses = Vec::new();
         for _ in 0..nclauses {
             let mut c = self.rand_clause(rng, &st);
@@ -605,7 +611,21 @@ impl Driver {
                     }
                     op
                 }
-                "recaps" => match rng.pick(&encs) {
+                "recaps" => match {
+                    // prefer encapsulations with several targets: that is where the audience can shrink
+                    let multi: Vec<String> = self
+                        .world
+                        .encs
+                        .iter()
+                        .filter(|(_, r)| r.enc.count() >= 2)
+                        .map(|(e, _)| e.clone())
+                        .collect();
+                    if !multi.is_empty() && rng.chance(3, 5) {
+                        rng.pick(&multi).cloned()
+                    } else {
+                        rng.pick(&encs).cloned()
+                    }
+                } {
                     Some(from) => {
                         self.n_enc += 1;
                         let k = if rng.chance(3, 4) { nmpk } else { 1 + rng.below(nmpk) };
